@@ -403,6 +403,16 @@ void QXmppIncomingClient::handleStanza(const QDomElement &nodeRecv)
             const auto id = nodeRecv.attribute(u"id"_s);
 
             if (QXmppBindIq::isBindIq(nodeRecv) && type == u"set") {
+                // only one resource per stream: a second binding would leave the first address in the
+                // server's routing tables after this client is gone
+                if (!d->resource.isEmpty()) {
+                    QXmppIq bindError(QXmppIq::Error);
+                    bindError.setId(id);
+                    bindError.setError(QXmppStanza::Error(QXmppStanza::Error::Cancel, QXmppStanza::Error::NotAllowed));
+                    sendPacket(bindError);
+                    return;
+                }
+
                 QXmppBindIq bindSet;
                 bindSet.parse(nodeRecv);
                 d->resource = bindSet.resource().trimmed();
